@@ -34,6 +34,7 @@ impl Batch {
 }
 /// ghost history of the header extension: `chain` is the header MMR content is_on_current_chain consults,
 /// `rewound_to` the header it was rewound to, `applied` the headers applied since
+#[derive(Clone, Copy)]
 pub struct HeaderExtension { pub chain: Ghost<Seq<BlockHeader>>, pub rewound_to: Ghost<Option<BlockHeader>>, pub applied: Ghost<Seq<BlockHeader>>, pub roots_ok: Ghost<Seq<BlockHeader>> }
 impl HeaderExtension {
     #[verifier::external_body]
